@@ -97,6 +97,16 @@ class Lock:
 
 
 
+def shared_dir(tmp, name):
+    """ONE directory for every in-process run of a stream (what a rebuild in one build tree does): emptied and created again, so
+    that the next case puts other content under the same paths"""
+    import shutil
+    d = os.path.join(tmp, name)
+    shutil.rmtree(d, ignore_errors=True)
+    os.makedirs(d)
+    return d
+
+
 def tricky_file(d, name, content, decoy=b"\xd8\x6bdecoy-" * 5):
     """Write `content` where the operating system finds it under a path that goes through a symbolic link to a directory and back up:
     <d>/_t/l/../<name> with l -> real/sub is the file <d>/_t/real/<name>.  <d>/_t/<name> — what collapsing ".." textually gives — holds
